@@ -21,10 +21,12 @@ class Payload:
 
     def __iadd__(self, o):
         self.value = self.value + Payload.get(o)
+        REC.updates += 1
         return self
 
     def __ilshift__(self, o):
         self.value = Payload.get(o)
+        REC.updates += 1
         return self
 
     def __add__(self, o):
